@@ -441,6 +441,8 @@ def ck(lst):
 
 
 ENGINE_HEADER = r"""
+;; flush after every observation: a hang or crash is then attributed to the right step
+(define (%obs x) (write x) (newline) (flush-output-port))
 (define (%ck ls)
   (let lp ((ls ls) (acc (length ls)))
     (if (null? ls) acc (lp (cdr ls) (modulo (+ (* acc 31) (modulo (car ls) 1000003) 1) 1000000007)))))
@@ -460,9 +462,10 @@ def gen_history(lib, rng, hid, nops):
         r = op(h, rng)
         if r is None:
             continue
-        name, code, expected = r
+        name, code, expected = r[:3]
+        pure = len(r) > 3 and r[3] == "pure"
         cks = [ck(lib.canon(m)) for m in h.m]
-        steps.append((name, code, [expected] + cks, [lib.size(m) for m in h.m]))
+        steps.append((name, code, [expected] + cks, [lib.size(m) for m in h.m], pure, dict(h.sig_extra)))
     binds = " ".join("(o%d %s)" % (i, e) for i, e in enumerate(h.init_exprs))
     body = "\n ".join("(%%obs (let* ((r %s)) (list r %s)))" % (s[1], " ".join("(%%ck (%%canon o%d))" % i for i in range(len(h.m))))
                       for s in steps)
@@ -510,25 +513,36 @@ def judge_history(rep, h, res):
         return 0
     steps = h["steps"]
     done = 0
-    for i, (name, code, exp, sizes) in enumerate(steps):
+    reported = set()
+    for i, (name, code, exp, sizes, pure, sx) in enumerate(steps):
         if i >= len(data):
             break
         got = data[i]
         if not (isinstance(got, list) and len(got) == len(exp)):
             wit.update({"step": i, "op": code, "got": str(got)[:400], "prefix": [s[1] for s in steps[max(0, i - 6):i]],
                         "form": h["form"][:5000]})
-            rep.violation({"lib": lib, "op": name, "mode": "unparsable-output"}, wit)
+            rep.violation(dict({"lib": lib, "op": name, "mode": "unparsable-output"}, **sx), wit)
             return done
+        if not same(got[0], exp[0]) and pure and got[1:] == exp[1:]:
+            # a pure query: the state is still in step with the model, report and go on
+            if name not in reported:
+                reported.add(name)
+                iserr = isinstance(got[0], list) and len(got[0]) == 2 and got[0][0] == Sym("err")
+                rep.violation(dict({"lib": lib, "op": name, "mode": "error" if iserr else "wrong-result"}, **sx),
+                              dict(wit, step=i, op=code, expected=str(exp[0])[:600], got=str(got[0])[:600],
+                                   prefix=[s[1] for s in steps[max(0, i - 6):i]], form=h["form"][:5000]))
+            done += 1
+            continue
         if not same(got[0], exp[0]):
             wit.update({"step": i, "op": code, "expected": str(exp[0])[:600], "got": str(got[0])[:600],
                         "prefix": [s[1] for s in steps[max(0, i - 6):i]], "form": h["form"][:5000]})
-            rep.violation({"lib": lib, "op": name, "mode": "wrong-result"}, wit)
+            rep.violation(dict({"lib": lib, "op": name, "mode": "wrong-result"}, **sx), wit)
             return done
         if got[1:] != exp[1:]:
             bad = [j for j in range(len(exp) - 1) if got[1 + j] != exp[1 + j]]
             wit.update({"step": i, "op": code, "objects": bad, "prefix": [s[1] for s in steps[max(0, i - 6):i]],
                         "form": h["form"][:5000]})
-            rep.violation({"lib": lib, "op": name, "mode": "object-state-differs"}, wit)
+            rep.violation(dict({"lib": lib, "op": name, "mode": "object-state-differs"}, **sx), wit)
             return done
         done += 1
         rep.case((lib, name), n=1)
@@ -537,7 +551,7 @@ def judge_history(rep, h, res):
         i = min(len(data), len(steps) - 1)
         wit.update({"step": i, "op": steps[i][1], "detail": res.detail, "prefix": [s[1] for s in steps[max(0, i - 6):i]],
                     "form": h["form"][:5000]})
-        rep.violation({"lib": lib, "op": steps[i][0], "mode": "crash"}, wit)
+        rep.violation(dict({"lib": lib, "op": steps[i][0], "mode": "crash"}, **steps[i][5]), wit)
     return done
 
 
